@@ -243,13 +243,28 @@ class Typer:
                 for prm, a in binds:
                     v = ft.type_of(a)
                     key = (t.where, prm)
+                    if (v is None or is_top(v)) and key not in self.param_override and key not in self._pessimistic:
+                        # optimistic start: an unknown argument is often derived from a parameter that is itself still
+                        # being inferred (recursion, chains of private helpers); every inferred type is re-checked
+                        # against all call sites on the following rounds and withdrawn if a site stays unknown
+                        continue
                     seen[key] = join(seen.get(key), v if v is not None else TOP) if key in seen else (v if v is not None else TOP)
         learnt = False
+        withdraw = []
         for (where, prm), v in seen.items():
+            if (where, prm) in self.param_override and (where, prm) in self._optimistic:
+                cur = self.param_override[(where, prm)]
+                if v is None or is_top(v):
+                    withdraw.append((where, prm))
+                elif not v <= cur:
+                    self.param_override[(where, prm)] = join(cur, v)
+                    learnt = True
+                continue
             if v is None or is_top(v) or not v:
                 continue
             if (where, prm) in self.param_override:
                 continue
+            self._optimistic.add((where, prm))
             func = next((f for f in self.p.all_funcs if f.where == where), None)
             if func is None:
                 continue
@@ -261,13 +276,29 @@ class Typer:
                 # a callback parameter that the package's own call sites may pass as None
                 self.param_override[(where, prm)] = FUNC | NONE
                 learnt = True
+        if not learnt and withdraw:
+            # nothing else is moving any more: a site that is still unknown stays unknown
+            for key in withdraw:
+                del self.param_override[key]
+                self._pessimistic.add(key)
+            learnt = True
         return learnt
 
     def run_interprocedural(self, rounds=6):
+        self._optimistic, self._pessimistic = set(), set()
         self.run(rounds)
-        for _ in range(4):
+        converged = False
+        for _ in range(14):
             if not self.infer_private_params():
+                converged = True
                 break
+            self.summ, self.results, self.field_cache = {}, {}, {}
+            self.run(rounds)
+        if not converged:
+            # no fixpoint in the budget: withdraw everything that was only assumed
+            for key in list(self._optimistic):
+                self.param_override.pop(key, None)
+                self._pessimistic.add(key)
             self.summ, self.results, self.field_cache = {}, {}, {}
             self.run(rounds)
         return self
@@ -314,6 +345,8 @@ class Typer:
         ("Walker.__calc_common", "start"): NODE_SEQ, ("Walker.__calc_common", "end"): NODE_SEQ,
         ("ResolverError.__init__", "child"): TOP, ("ChildResolverError.__init__", "child"): TOP,
         ("CountError.__init__", "result"): NODE_SEQ,
+        # documented precondition of the resolver API: paths are strings
+        ("Resolver.get", "path"): STR, ("Resolver.glob", "path"): STR, ("Resolver.is_wildcard", "path"): STR,
     }
 
     def _seed_by_name(self, func, name):
@@ -670,6 +703,9 @@ class Typer:
             return self._call(func, ft, e, env, yields)
         if isinstance(e, ast.Subscript):
             recv = ev(e.value)
+            if recv is not None and not is_top(recv) and "none" in recv and recv - NONE:
+                # the value of `x[i]` when it has one: None is not subscriptable (that failure is the None rules' subject)
+                recv = recv - NONE
             if isinstance(e.slice, ast.Slice):
                 for part in (e.slice.lower, e.slice.upper, e.slice.step):
                     if part is not None:
